@@ -198,5 +198,6 @@ def obligations(tier):
         X("wrap_seam.prop", wrap_box, parts=[{"mode": "prop", "w": 10}], labels=("seam",), timeout=600, encoded=enc, role="finding_prop", finding="F5"),
         X("wrap_seam.recorded", wrap_box, parts=[{"mode": "recorded", "w": w} for w in W], labels=("seam",), timeout=600, encoded=enc,
           role="finding_recorded", finding="F5"),
+        K("box_real", k_box_real, timeout=300, encoded=enc, bounds={"positions, query point, leeways": "all reals; 2 agents"}),
     ]
     return obs
